@@ -120,6 +120,70 @@ def run_pipe_leg(ctx: Any, svc: Service, calls: list[Call], kind: str, *, buggif
     return res
 
 
+def run_shm_leg(ctx: Any, svc: Service, calls: list[Call], *, seg_extra: int, shm_min: int, label: str, buggify: bool = False) -> LegResult:
+    """A simulated shm-pipe: real ShmPipeTransport on both ends over channels and an in-memory SharedMemory segment."""
+    import io
+
+    import vgi_rpc.shm as shm_mod
+    from dst.chan import SimRawReader, SimRawWriter, make_pipe_channels
+    from sims.s7_shm import FakeShmHost
+    from vgi_rpc.rpc._transport import PipeTransport, ShmPipeTransport, _clamped, _exact
+    from vgi_rpc.shm import HEADER_SIZE, ShmSegment
+
+    host = FakeShmHost()
+    saved = (shm_mod.SharedMemory, shm_mod.SHM_MIN_BATCH_BYTES)
+    res = LegResult(name=f"shm-pipe(seg=+{seg_extra},min={shm_min})", traces=[], extra={"via_shm": 0})
+    try:
+        shm_mod.SharedMemory = host.SharedMemory  # type: ignore[assignment, misc]
+        shm_mod.SHM_MIN_BATCH_BYTES = shm_min
+        sched = Scheduler(ctx.ch, ctx.log, wall_limit=60.0)
+        seg_c = ShmSegment.create(HEADER_SIZE + seg_extra)
+        seg_s = ShmSegment.attach(seg_c.name, seg_c.size, track=False)
+        server = RpcServer(svc.protocol, svc.impl_cls(), server_id="srv")
+        ob = Observer()
+        state: dict[str, Any] = {"cur": None}
+
+        def on_batch(ab: Any) -> None:
+            if ab._release_fn is not None:
+                res.extra["via_shm"] += 1
+            ab.release()
+
+        ob.batch_hook = on_batch
+
+        def root() -> None:
+            c2s, s2c = make_pipe_channels(sched, ctx.ch, label, buggify=buggify)
+            ct = ShmPipeTransport(PipeTransport(_clamped(io.BufferedReader(SimRawReader(s2c))), _exact(SimRawWriter(c2s))), seg_c)
+            st = ShmPipeTransport(PipeTransport(_clamped(io.BufferedReader(SimRawReader(c2s))), _exact(SimRawWriter(s2c))), seg_s)
+            conn = s1.Conn("shm", ct, st, c2s, s2c)
+            state["conn"] = conn
+            s1.serve_conn(sched, server, conn)
+            proxy = _RpcProxy(svc.protocol, ct, ob.on_log)
+            for i, c in enumerate(calls):
+                state["cur"] = i
+                try:
+                    tr = drive(proxy, svc, c, ob)
+                except Exception as exc:  # noqa: BLE001
+                    tr = list(ob.cur or []) + [("raw-exception", type(exc).__name__, str(exc)[:200])]
+                    ob.end()
+                res.traces.append(tr)
+                state["cur"] = None
+            sched.block(("quiesce",), 0.0, "quiesce")
+            res.extra["allocs_at_end"] = seg_c.allocator.num_allocs
+            ct.close()
+
+        sched.run(root)
+        ctx.absorb_sched(sched)
+        if sched.deadlocked:
+            res.hang_at = state["cur"]
+            res.hang_info = sched.describe_blocked()
+        conn = state.get("conn")
+        if conn is not None and conn.server_exc is not None:
+            res.server_exc = f"{type(conn.server_exc).__name__}: {conn.server_exc}"
+    finally:
+        shm_mod.SharedMemory, shm_mod.SHM_MIN_BATCH_BYTES = saved  # type: ignore[misc]
+    return res
+
+
 @dataclass
 class HttpCfg:
     cap: int | None = None  # max_response_bytes
